@@ -83,6 +83,7 @@ class Env:
         self.sched = vs.Scheduler(self.choices)
         self.world = vos.reset(self.sched)
         self.world.seq_horizon = self.world.now + 5000
+        _l2_env[0] = self
         vproc.launcher = self._launch
         vos.deliver_signal = self._signal
         self.workers = collections.OrderedDict()     # pid -> SpecWorker
@@ -158,6 +159,7 @@ class Env:
         try:
             self.sched.abandon()
         finally:
+            _l2_env[0] = None
             vproc.launcher = None
             vctx.reset_billiard_globals()
             vos.clear()
@@ -249,7 +251,8 @@ class Env:
                     evs.append(('die', w.pid, s_))
                 continue
             if w.phase == 'idle' and indata:
-                evs.append(('take', w.pid))
+                evs.append(('run', w.pid) if A.get('atomic_worker')
+                           else ('take', w.pid))
             if w.phase == 'acked':
                 evs.append(('finish', w.pid))
                 if w.soft and A.get('soft_raise'):
@@ -282,7 +285,7 @@ class Env:
                 # aims at the worker the job's accept callback reported
                 evs.append(('tjob', j))
             if A.get('next') and rec['kind'] in ('imap', 'imap_unordered') \
-                    and not rec.get('exhausted'):
+                    and not rec.get('exhausted') and 'gen' not in rec:
                 evs.append(('next', j))
         if A.get('close') and not self.closed and any(
                 w.alive and not w.term and
@@ -425,9 +428,15 @@ class Env:
             kw = {}
             if t.get('lost'):
                 kw['lost_worker_timeout'] = t['lost']
+            cs = t.get('chunksize') or 1
+            if cs > 1:
+                kw['chunksize'] = cs
             h = meth(fn, iter(items), **kw)
+            if cs > 1 and h is not None:
+                rec['gen'] = h          # a generator over the chunks
+                h = pool._cache[j]
             rec['expect_items'] = [self._seq(fn, x) for x in items]
-            rec['nparts'] = len(items)
+            rec['nparts'] = -(-len(items) // cs)
         rec['h'] = h
         if h is not None and getattr(h, '_job', j) != j:
             raise vs.HarnessError('job numbering drifted: %r != %r'
@@ -498,7 +507,7 @@ class Env:
             rec['exhausted'] = True
             rec['nexts'].append(('stop',))
         except bexc.TimeoutError:
-            rec['nexts'].append(('pending',))
+            # nothing to deliver yet: no observable change
             self.log[-1] = self.log[-1] + ('pending',)
         except Exception as exc:
             a = exc.args[0] if exc.args else None
@@ -515,7 +524,7 @@ class Env:
         self.sched.step(self.th)
         guard = 0
         while self.th.state == 'parked' and \
-                self.th.pending.op not in ('th.put', 'q.get'):
+                self.th.pending.op not in ('th.put', 'q.get', 'th.setlen'):
             # locks / conditions taken inside the same logical step
             if not self.th.is_enabled(self.world.now):
                 raise Violation('TaskHandler blocked inside a step at %r'
@@ -547,6 +556,11 @@ class Env:
             if self.jobs[job]['kind'] == 'apply':
                 self.jobs[job]['acked_at'] = self.world.now
         self._outq_put(w, (ACK, (job, i, self.world.now, pid, None)))
+
+    def ev_run(self, pid):
+        self.ev_take(pid)
+        if self.workers[pid].phase == 'acked':
+            self.ev_finish(pid)
 
     def ev_finish(self, pid, variant=None):
         w = self.workers[pid]
@@ -914,6 +928,25 @@ class Env:
             elif not h.ready():
                 out.append(j)
         return out
+
+
+_orig_set_length = bp.IMapIterator._set_length
+
+
+_l2_env = [None]
+
+
+def _set_length_with_point(self, length):
+    vt = vs.current()
+    if vt is not None and _l2_env[0] is not None and \
+            vt is _l2_env[0].th:
+        vt.sched.point('th.setlen', None)
+        with nopoints(None):
+            return _orig_set_length(self, length)
+    return _orig_set_length(self, length)
+
+
+bp.IMapIterator._set_length = _set_length_with_point
 
 
 class nopoints:
